@@ -105,16 +105,39 @@ def check_metatype_cmp(chk, prog, cfg, rule="R16.1"):
         # no read of fn_type_info anywhere in the body
         reads_fn = any(who.term_hits(t, MT, "fn_type_info") for bb, c in b.calls() for t in [b.operand_term(a) for a in c["args"]])
         chk.expect(ok and not reads_fn, rule, "MetaType:%s" % last(tr), b.where(), detail, cfg)
-    # partial_cmp
+    # partial_cmp and is_phantom: decided on symbolic runs (delegation to the sibling impl or a direct comparison of the ids are the same thing)
+    from ..lib import symrun, absint
+    S = absint.Sym
+
+    class R(symrun.Run):
+        def handler(self, name, args, t):
+            sp = mir.strip_generics(name)
+            lastn = sp.split("::")[-1]
+            ris = t.get("resolved_impl_self")
+            on_typeid = ris is not None and prog.ty(ris)["s"] == "core::any::TypeId"
+            if lastn in ("cmp", "eq", "ne", "partial_cmp", "hash") and on_typeid and len(args) == 2:
+                self.log.append((lastn, args[0], args[1]))
+                return S(lastn.upper())
+            if sp == "core::any::TypeId::of" and not args:
+                gs = [g for g in (t.get("gargs") or []) if isinstance(g, int)]
+                return ("tid", prog.ty(gs[0])["s"] if gs else "?")
+            if sp == "scale_info::meta_type::MetaType::new" and not args:
+                gs = [g for g in (t.get("gargs") or []) if isinstance(g, int)]
+                return symrun.struct(prog, MT, "new", type_id=("tid-of-identity", prog.ty(gs[0])["s"] if gs else "?"))
+            return symrun.Run.handler(self, name, args, t)
+
     imps = prog.impl_for("core::cmp::PartialOrd", lambda t: t["k"] == "adt" and t["d"] == MT)
     if len(imps) == 1 and not imps[0]["automatically_derived"]:
         fn = [it for it in imps[0]["items"] if it["name"] == "partial_cmp"]
         b = prog.body(fn[0]["path"])
-        rt = b.return_term()
-        ok = is_adt_agg(rt, "core::option::Option", "Some") and is_call(rt[3][0], "core::cmp::Ord::cmp", nargs=2) \
-            and unref(rt[3][0][2][0]) == cr.arg(b, 1) and unref(rt[3][0][2][1]) == cr.arg(b, 2) \
-            and (rt[3][0][1].get("resolved_impl") or "").startswith("<scale_info::meta_type::MetaType as core::cmp::Ord>")
-        chk.expect(ok, rule, "MetaType:PartialOrd", b.where(), path_str(rt), cfg)
+        r = R(prog)
+        try:
+            v = r.run(fn[0]["path"], [symrun.struct(prog, MT, "self"), symrun.struct(prog, MT, "other")])
+            ok = absint.opt_view(v) == ("Some", S("CMP")) and r.log == [("cmp", S("self.type_id"), S("other.type_id"))]
+            detail = "partial_cmp(self, other) = %s with comparisons %s" % (symrun.show(v), [(x[0], symrun.show(x[1]), symrun.show(x[2])) for x in r.log])
+        except absint.Unrecognised as e:
+            ok, detail = False, "cannot interpret: %s" % e
+        chk.expect(ok, rule, "MetaType:PartialOrd", b.where(), detail, cfg)
     else:
         chk.fail(rule, "MetaType:PartialOrd", imps[0]["loc"] if imps else None, "PartialOrd for MetaType: %d impl(s), derived=%s"
                  % (len(imps), [i["automatically_derived"] for i in imps]), cfg)
@@ -123,14 +146,16 @@ def check_metatype_cmp(chk, prog, cfg, rule="R16.1"):
     # is_phantom
     b = cr.anchor(chk, prog, "meta_type::MetaType::is_phantom")
     if b is not None:
-        rt = b.return_term()
-        ok = False
-        if is_call(rt, "core::cmp::PartialEq::eq", nargs=2) and unref(rt[2][0]) == cr.arg(b, 1):
-            o = unref(rt[2][1])
-            if is_call(o, "scale_info::meta_type::MetaType::new", nargs=0):
-                g = [x for x in o[1]["gargs"] if isinstance(x, int)]
-                ok = len(g) == 1 and prog.ty(g[0])["s"] == "core::marker::PhantomData<()>"
-        chk.expect(ok, "R16.4", "MetaType::is_phantom", b.where(), path_str(rt), cfg)
+        r = R(prog)
+        try:
+            v = r.run(b.path, [symrun.struct(prog, MT, "self")])
+            PH = (("tid", "core::marker::PhantomData<()>"), ("tid-of-identity", "core::marker::PhantomData<()>"))
+            ok = v == S("EQ") and len(r.log) == 1 and r.log[0][0] == "eq" and {r.log[0][1], r.log[0][2]} & {S("self.type_id")} \
+                and ({r.log[0][1], r.log[0][2]} - {S("self.type_id")}) <= set(PH) and r.log[0][1] != r.log[0][2]
+            detail = "is_phantom(self) = %s with comparisons %s" % (symrun.show(v), [(x[0], symrun.show(x[1]), symrun.show(x[2])) for x in r.log])
+        except absint.Unrecognised as e:
+            ok, detail = False, "cannot interpret: %s" % e
+        chk.expect(ok, "R16.4", "MetaType::is_phantom", b.where(), detail, cfg)
 
 
 # ------------------------------------------------------------------ R5.3 – R5.5
